@@ -2981,7 +2981,7 @@ def control_histories(doc):
                 if (p2, pt2, k2) != (prop, point, kind):
                     continue
                 it = iter(seq_)
-                if all(any(x == y for y in it) for x in r2.split('+')):
+                if all(any(x == y for y in it) for x in r2.split('+') if x != 'tick'):     # (loop ticks ignored on both sides)
                     return k
             return None
 
